@@ -191,6 +191,14 @@ def queue_objects(an, f, st, fr):
     return out
 
 
+def callback_hook(an, st, fr, e, args):
+    """CALLBACK: an address handed to a caller-supplied function (a compare or visit callback) points at storage the callee
+    may read: at least one byte of the region it was computed from"""
+    for a in args:
+        if isinstance(a, Ptr) and a.region is not None and a.region.kind != "contract-opaque":
+            an.check_access(st, fr, e, a, Lin.const(1), "address handed to a callback")
+
+
 def run_linbounds(prog, ctx=None):
     res = Result("LINBOUNDS")
     files = list(ctx.get("files", [])) if ctx else []
@@ -210,6 +218,7 @@ def run_linbounds(prog, ctx=None):
         # C entry points: callees from the queue files are analysed in context; everything else (and every callee of the
         # C++ wrappers, which only forward) is used through its contract: INV in, INV out
         an.policy = (lambda fr, g, cxx=cxx: "modular" if (cxx and g.file.endswith(".c")) or g.file not in fileset else "inline")
+        an.indirect_hook = callback_hook
         spec = SPECS.get(f.name)
         copied_key = None
         if spec:
@@ -1316,16 +1325,96 @@ def _codec_root(i):
             ln = st.env.get(("f", out.obj, out.prefix + "iov_len"))
             if isinstance(done, Lin) and isinstance(scr, Lin) and isinstance(ln, Lin):
                 st.add(ln - done - scr)
+        # ENCSTATE (shown at every successful exit by ENCKEEP): the open block is shorter than a full code block
+        if isinstance(scr, Lin) and f.name != "mpt_encode_string":
+            st.add(Lin.const(ENC_OPEN_MAX) - scr)
     an.pre_run = pre
     entry, fr, outs = an.analyse_root(f)
     for k in ("states", "paths", "inlined"):
         stats[k] = an.stats.get(k, 0)
     _merge_obls(an, f, agg, undecided, stats)
+    _enc_keep(an, f, fr, entry, outs, agg, undecided)
     cut = None
     if an.over_budget:
         undecided.add("LIN:%s:budget" % f.name)
         cut = f.name
     return {"agg": agg, "undecided": undecided, "stats": stats, "assumed": an.assumed, "cut": cut}
+
+
+ENC_OPEN_MAX = 254      # a code byte counts itself and up to 254 data bytes; 255 closes the block at once
+
+
+def _enc_keep(an, f, fr, entry, outs, agg, undecided):
+    """ENCKEEP: a call that reports success never takes back what earlier calls encoded.  With output space granted and
+    input handed over (or the message terminated: no input vector), the finished part `done` does not shrink and the
+    encoded amount `done + scratch` does not shrink; termination turns the open block into finished data.  Decided on
+    exact paths; an exit behind a loop join where the relation is not shown is listed as not decided."""
+    info = out = base = None
+    for p in f.params:
+        pv = entry.env.get(("v", fr.id, p["id"]))
+        if isinstance(pv, ObjPtr):
+            rec = an.objrec.get((pv.obj, pv.prefix), "")
+            if rec.endswith("encode_state"):
+                info = (pv, p)
+            elif rec == "iovec" and out is None:
+                out = (pv, p)
+            elif rec == "iovec":
+                base = (pv, p)
+    if info is None or out is None or base is None:
+        return
+    d0 = entry.env.get(("f", info[0].obj, info[0].prefix + "done"))
+    s0 = entry.env.get(("f", info[0].obj, info[0].prefix + "scratch"))
+    if not (isinstance(d0, Lin) and isinstance(s0, Lin)):
+        return
+    ok, det, n, nterm = True, [], 0, 0
+    for st, v in outs:
+        if not isinstance(v, Lin) or st.entails(Lin.const(-1) - v):
+            continue            # error return: the caller discards or retries
+        ov = st.env.get(("v", fr.id, out[1]["id"]))
+        bv = st.env.get(("v", fr.id, base[1]["id"]))
+        if not isinstance(ov, ObjPtr):
+            continue            # reset request (no output vector)
+        term = isinstance(bv, Ptr) and bv.region is None
+        if not term:
+            if not isinstance(bv, ObjPtr):
+                continue
+            src = st.env.get(("f", bv.obj, bv.prefix + "iov_base"))
+            if not (isinstance(src, Ptr) and src.region is not None):
+                continue        # message deletion (no source address)
+            if src.maybe_null:
+                # the member itself is not refined by a test of the local it was loaded into: a path that took the
+                # input has a local pointing into the source region that is known to be non-null
+                live = [x for k, x in st.env.items() if k[0] == "v" and k[1] == fr.id and isinstance(x, Ptr)
+                        and x.region is src.region and not x.maybe_null]
+                if not live:
+                    continue
+        d1 = st.env.get(("f", info[0].obj, info[0].prefix + "done"))
+        s1 = st.env.get(("f", info[0].obj, info[0].prefix + "scratch"))
+        n += 1
+        nterm += 1 if term else 0
+        bad = []
+        if not (isinstance(d1, Lin) and isinstance(s1, Lin)):
+            bad.append("done and scratch are known")
+        elif term:
+            if not st.entails(d1 - d0 - s0):
+                bad.append("done' >= done + scratch (termination keeps the finished data and closes the open block)")
+        else:
+            if not st.entails(d1 - d0):
+                bad.append("done' >= done")
+            if not st.entails(d1 + s1 - d0 - s0):
+                bad.append("done' + scratch' >= done + scratch")
+        if isinstance(s1, Lin) and f.name != "mpt_encode_string" and not st.entails(Lin.const(ENC_OPEN_MAX) - s1):
+            bad.append("scratch' <= %d (assumed of the state on entry)" % ENC_OPEN_MAX)
+        if not bad:
+            continue
+        if st.joined or "join" in st.trail:
+            undecided.add("LIN:%s:ENCKEEP:%s" % (f.name, "termination" if term else "data behind the block loop"))
+            continue
+        ok = False
+        det.append("%s not shown on path %s (done'=%r scratch'=%r)" % ("; ".join(bad), " / ".join(st.trail[-8:]), d1, s1))
+    if n:
+        agg["LIN:%s:ENCKEEP" % f.name] = [ok, FRef(f), f.line, " || ".join(det[:3]), True]
+    return nterm
 
 
 def run_lincodec(prog, ctx=None):
